@@ -10,7 +10,7 @@ cp lean/FixModel/Generated/Facts.lean /tmp/vt_facts_backup.lean
 export GOFLAGS=-mod=mod GOPROXY=off GOSUMDB=off GOTOOLCHAIN=local
 rm -rf /tmp/vt_ties && ./bin/extract -repo /repo -out /tmp/vt_ties >/dev/null 2>&1 || echo "EXTRACTOR FAILED"
 cp /tmp/vt_ties/Facts.lean lean/FixModel/Generated/Facts.lean
-for m in Props.SessionSkeleton Props.ConnSkeleton Props.C05 Props.C13 Props.C20 Props.C19 Props.C04 Props.C08 Props.C09 Props.C12; do
+for m in Props.SessionSkeleton Props.SessionOrders Props.ConnSkeleton Props.C05Gen Props.C13 Props.C20 Props.C04Gen Props.C08Gen Props.C09Gen; do
   if (cd lean && lake build $m >/dev/null 2>&1); then :; else echo "  broken: $m"; fi
 done
 git -C /repo checkout -- .
